@@ -196,8 +196,51 @@ def check_C04(ctx):
     return mapaccess_check(ctx, "C04")
 
 
+# ------------------------------------------------------------------------------------------------
+# C07
+# ------------------------------------------------------------------------------------------------
+def c07_matchers():
+    def alias_phase(rec, detail):
+        return isinstance(detail, dict) and detail.get("alias_in_mapping") and detail.get("verdict") in (
+            "report-merge-keys", "breach-merge-keys")
+    return {"C07-alias-phase-inversion": alias_phase}
+
+
+def check_C07(ctx):
+    q = ctx.quick()
+    base = dict(MaxEv=10 if q else 11, MaxDocs=2, Names=[1], PerDoc=False, AliasToggles=False, ResetAllPerDoc=True,
+                SkipObserves=True)
+    cases = ctx.path("cases.ndjson")
+    # the design without the alias deviation: report = independent count at every step
+    run_mc(ctx, "MC_Budget", base, ["InvReport", "EmitCase"], workers=8, timeout=3000, cases_out=cases, label="MC_Budget_all")
+    # the design before repair c5326a2 (alias advances the key/value phase twice): everything but merge_keys exact
+    run_mc(ctx, "MC_Budget", dict(base, AliasToggles=True, MaxEv=9 if q else 10), ["InvReportButMK"], workers=8, timeout=3000,
+           label="MC_Budget_alias_deviation")
+    # per-document enforcement with the iterator's error recovery: fresh at every document start
+    run_mc(ctx, "MC_Budget", dict(base, PerDoc=True, MaxEv=10 if q else 12, MaxDocs=2 if q else 3),
+           ["InvFreshPerDoc"], workers=8, timeout=3000, label="MC_Budget_perdoc")
+    ctx.exhaustive = True
+    recs = ctx.path("recs.ndjson")
+    st = run_vh(ctx, ["c07", "--cases", cases, "--out", recs, "--random", 400 if q else 6000, "--seed", ctx.seed,
+                      "--max-events", 30 if q else 60, "--all-limits", 1])
+    ctx.evaluations += st["records"]
+    ctx.distinct_nontrivial += st["nontrivial"]
+    ctx.samples += st["samples"]
+    mism = run_tv(ctx, "TV_Budget", recs, timeout=3000)
+    classify_mismatches(ctx, mism, recs, c07_matchers(),
+                        "budget acceptance / breach kind / usage report differs from Budget!Usage over the observed stream")
+    return finish(ctx, "model_checking",
+                  "cases: every stream of <= 2 documents up to MaxEv events (anchors, aliases, merge-key scalars) enumerated by "
+                  "TLC, rendered flow and block, each run through from_str / from_multiple / check_yaml_budget / read with "
+                  "limits = usage, each single limit lowered by one, unlimited, and the alias/anchor ratio rule around its "
+                  "thresholds; plus random streams; non-trivial = distinct texts with an alias or a merge key",
+                  ASSUME_COMMON + ["usage used to derive the limits comes from the crate's own report but every record is "
+                                   "decided against Budget!Usage computed by TLC from the raw parser events"])
+
+
 CHECKS = {
     "C02": check_C02,
+    "C07": check_C07,
     "C03": check_C03,
     "C04": check_C04,
 }
